@@ -407,6 +407,18 @@ def solve_smt(obs, timeout_s=20, both=False, jobs=None, seed=0):
             tasks.append((i, obs[i]["smt2"], sv, timeout_s * 1000, False, seed))
     for idx, solver, status, dt, model in run_tasks(tasks, jobs, cancel_siblings=True):
         record(idx, solver, status, dt)
+    # still open: the string solvers are unstable from run to run on identical input (the same query is decided in seconds
+    # or not at all); retry with other random seeds before giving up -- an 'unknown' is never a verdict
+    for attempt in (1, 2, 3):
+        still = [i for i in pending if results[i].status == "unknown"]
+        if not still:
+            break
+        tasks = []
+        for i in still:
+            for sv in (("cvc5", "cvc5-fmf", "z3") if obs[i]["strs"] else ("z3", "cvc5")):
+                tasks.append((i, obs[i]["smt2"], sv, min(timeout_s, 90) * 1000, False, seed + 7919 * attempt))
+        for idx, solver, status, dt, model in run_tasks(tasks, jobs, cancel_siblings=True):
+            record(idx, solver + "-retry%d" % attempt, status, dt)
     if both:
         # second opinion on every obligation that is already decided: the other solvers get a bounded budget; an answer
         # that contradicts the first one is a 'disagree' (checker fault), no answer in the budget is not
